@@ -60,6 +60,10 @@ CHECKS = {
   "Bounded exhaustive path enumeration of the real sort_classes/topological_sort/sources_from_classes on abstract classes whose dependency edges (none / inner type / declared dependency) are solver variables; every branch on an edge is a solver-decided fork, so each feasible path is one dependency graph inside the bound (<=3 classes quick, <=4 thorough; enumerated root lists and API masks). Per graph: acyclic => no error, each reachable class with an API exactly once, dependencies first, one source block per class; cyclic => ValueError. This is the weakest use of the technique (the solver only prunes and supplies models) and is labelled as such.",
   "graphs with more classes are outside the claim; 'the emitted source compiles' is observed only in the replay of a counterexample (real Struct classes + cffi build); A2 (distinct names).",
   "symbolic execution with solver-variable edges = bounded exhaustive path enumeration; replay with real classes and cffi"),
+ "C16": (TV, "5/C16",
+  "PARTIAL. For enumerated kernel templates the real specialize_source output of the four targets is parsed and the execution form of every vectorize_over block is read off the AST (CPU for-loop, OpenCL get_global_id assignment, CUDA index expression + guard); the launch geometry comes from symbolically executing the real KernelCupy.__call__ and KernelPyopencl.__call__ with symbolic n_threads and block size. z3 proves for ALL n >= 0 and block sizes 1..1024: the executed index set is exactly 0..n-1 on every target, the work-item -> index map is injective (exactly once), nothing runs for n = 0. The text-level claims (only_for_context, include_file, pass-through) are observed on the templates by locating marker statements in the parsed output (auxiliary, no solver verdict). Counterexamples are replayed by host-compiling every specialisation and driving it with a simulated launch.",
+  "8 templates (enumerated); n < 2^31, block <= 1024; S7 (int/np.ceil/float division on proxies) with lemma L2 proved each run from the IEEE-754 rounding axiom; GPU execution model as stated in evidence; arbitrary kernel sources, real devices and OpenMP scheduling are outside the claim.",
+  "pycparser AST -> z3 execution predicates + symbolic execution of the real launch code; z3 unsat of set equality/injectivity for all n, block; simulated-launch replay"),
 }
 NA = {
  "C17": "kernel-call glue around cffi/ctypes pointers and NumPy scalar constructors: values cross into C objects a symbolic executor cannot follow and there is no arithmetic to encode beyond ctypes.data+_offset; needs compiled kernels and byte-level observation (execution, not solving). DESIGN.md section 6.",
